@@ -659,6 +659,7 @@ fn ty_name(t: &crate::corpus_def::Ty) -> String {
         Ty::Set(e) => format!("set<{}>", ty_name(e)),
         Ty::Map(k, v) => format!("map<{},{}>", ty_name(k), ty_name(v)),
         Ty::Struct(n) | Ty::Enum(n) => n.to_string(),
+        Ty::Alias(n, inner) => format!("{}={}", n, ty_name(inner)),
     }
 }
 
@@ -667,6 +668,9 @@ fn ty_name(t: &crate::corpus_def::Ty) -> String {
 pub fn has_unknown(sc: &crate::tval::Schema, v: &crate::tval::TV, t: &crate::corpus_def::Ty) -> bool {
     use crate::corpus_def::Ty;
     use crate::tval::TV;
+    if let Ty::Alias(_, inner) = t {
+        return has_unknown(sc, v, inner);
+    }
     match (v, t) {
         (TV::Struct(fs), Ty::Struct(n)) => {
             let Some(def) = sc.get(n) else { return false };
@@ -694,6 +698,7 @@ fn walk_declared<P: pilota::thrift::TInputProtocol>(
         return Err(pilota::thrift::new_protocol_exception(pilota::thrift::ProtocolExceptionKind::Unknown, "harness:walk-depth"));
     }
     match t {
+        Ty::Alias(_, inner) => walk_declared(sc, p, inner, found, depth),
         Ty::Bool => p.read_bool().map(|_| ()),
         Ty::I8 => p.read_i8().map(|_| ()),
         Ty::I16 => p.read_i16().map(|_| ()),
